@@ -46,6 +46,10 @@ namespace nmtools::index
             src_2 = offset > 0 ? src_2 - offset : src_2;
             
             auto src_i = (src_1 < src_2 ? src_1 : src_2);
+            // an offset beyond the matrix selects an empty diagonal
+            if (src_i < 0) {
+                src_i = 0;
+            }
 
             at(result,r_idx) = src_i;
         }
